@@ -957,7 +957,7 @@ def _ties_big(op):
 def execute(prog):
     """Run a program; returns the trace (header + events) for Trace_Twin."""
     global SNAP
-    SNAP = bool(prog.get("snap", False))
+    SNAP = bool(prog.get("snap", False) or prog.get("millis", False))  # 0.001 uL is not a binary fraction
     tw = Twin(prog)
     try:
         unit = tw.unit
@@ -973,6 +973,7 @@ def execute(prog):
             "unitc": unitc if unitc else 1,
             "k": k if k else 1,
             "pair": bool(prog.get("pair", False)),
+            "millis": bool(prog.get("millis", False)),
             "wl": {"maxv": wlp["maxv"], "maxc": maxc if 0 < maxc < 2**31 else 0, "autosplit": wlp.get("autosplit", True),
                    "diti": wlp.get("diti", False)},
             "lw": [tw.header_lw(i, spec) for i, spec in enumerate(prog["lw"])],
@@ -984,6 +985,11 @@ def execute(prog):
         flags.setdefault("norm", False)
         flags.setdefault("file", False)
         flags.setdefault("fullhist", False)
+        if hdr["millis"]:
+            # unit = 1/1000 uL: records carry rounded volumes, judged by C01.rounding / C01.address, not by the exact robot replay
+            flags["records"] = True
+            flags["robot"] = False
+            hdr["wl"]["maxc"] = wlp["maxv"] // 10
         flags["robot"] = flags["robot"] and flags["records"]
         hdr["flags"] = flags
         hdr["splitting"] = splitting
